@@ -218,6 +218,44 @@ def o_panic_contained(w):
         out.append(('healthy-op-stranded:op%d(%s by %s)' % (op['opid'], op['kind'], op['thread']), And(w.quiescent, Ne(n, ONE))))
     return out
 
+def o_pipe_in(w):
+    """pipe_in: items processed once, in stream order, one at a time; everything available is processed at quiescence; stream and closure are
+    released when the stream ends or at the first stream event after the Desync is gone; the pipe does not keep the Desync alive"""
+    out = []
+    Q = w.quiescent
+    for pid, pp in enumerate(w.pipes):
+        base, n = pp['base'], pp['n']
+        G = lambda nm, k, d: w.ghost.get('%s%d' % (nm, k), d)
+        for a in range(n):
+            for b in range(a + 1, n):
+                sb = G('start', base + b, NONE_T); ea = G('end', base + a, NONE_T)
+                out.append(('pipe%d-item%d-started-before-item%d-finished' % (pid, b, a), And(Ne(sb, NONE_T), Or(Eq(ea, NONE_T), Not(Ult(ea, sb))))))
+        cid = w.canaries[pp['var']]
+        dropend = G('dropend', cid, NONE_T); gone = Ne(dropend, NONE_T)
+        hasdrop = any(op[0] == 'p_drop' and op[1] == pp['var'] for th in w.scen['threads'] for op in th['ops'])
+        if not hasdrop: gone = FALSE
+        allopen = TRUE
+        for k in range(n):
+            gk = pp['gates'][k]
+            allopen = And(allopen, TRUE if gk == 99 else G('gate', gk, FALSE))
+            nr = G('nrun', base + k, ZERO); en = G('end', base + k, NONE_T)
+            out.append(('pipe%d-item%d-available-but-not-processed-at-quiescence' % (pid, k), And(Q, Not(gone), allopen, Or(Ne(nr, ONE), Eq(en, NONE_T)))))
+        for f_, what in ((2 * pid, 'stream'), (2 * pid + 1, 'closure')):
+            nd = G('flagdrop', f_, ZERO)
+            if pp['ends']:
+                out.append(('pipe%d-ended-but-%s-not-released' % (pid, what), And(Q, Not(gone), allopen, Ne(nd, ONE))))
+            if hasdrop:
+                late = FALSE
+                for gk in pp['gates']:
+                    if gk == 99: continue
+                    at = G('gateopen_at', gk, NONE_T)
+                    late = Or(late, And(G('gatewoke', gk, FALSE), Ne(at, NONE_T), Ult(dropend, at)))
+                out.append(('pipe%d-%s-not-released-at-stream-event-after-desync-gone' % (pid, what), And(Q, gone, late, Ne(nd, ONE))))
+        if hasdrop:
+            out.append(('pipe%d-keeps-desync-alive' % pid, And(Q, gone, Ne(G('ndrop', cid, ZERO), ONE))))
+    out += [(n_, g) for n_, g in w.m.violations if n_.startswith('dropped-twice:flag')]
+    return out
+
 def o_independent(w):
     """with the gates never opened, whenever no thread can move every un-gated operation has completed"""
     out = []
@@ -227,5 +265,5 @@ def o_independent(w):
         out.append(('blocked-by-other-object:op%d' % op['opid'], And(w.norun, Ne(n, ONE))))
     return out
 
-ORACLES = {'independent': o_independent, 'panic_unexpected': o_panic_unexpected, 'panic_contained': o_panic_contained, 'memory': o_memory, 'drop_waits': o_drop_waits, 'fut_results': o_fut_results, 'suspend': o_suspend, 'cancelled_clean': o_cancelled_clean, 'overlap': o_overlap, 'ran_twice': o_ran_twice, 'pool_max': o_pool_max, 'deadlock': o_deadlock, 'panic': o_panic,
+ORACLES = {'independent': o_independent, 'pipe_in': o_pipe_in, 'panic_unexpected': o_panic_unexpected, 'panic_contained': o_panic_contained, 'memory': o_memory, 'drop_waits': o_drop_waits, 'fut_results': o_fut_results, 'suspend': o_suspend, 'cancelled_clean': o_cancelled_clean, 'overlap': o_overlap, 'ran_twice': o_ran_twice, 'pool_max': o_pool_max, 'deadlock': o_deadlock, 'panic': o_panic,
            'quiescent_complete': o_quiescent_complete, 'results': o_results, 'order': o_order, 'final_try_sync': o_final_try_sync}
